@@ -80,6 +80,25 @@ pub const WRITTEN_FORMS: &[(&str, bool)] = &[
     ("{ 5 } ~~", true), ("{ () } ~~", false), ("5 ~> { $! }", false), ("5 ~> { $ }", true), ("1 ?> ()", false), ("() ?> 1 |> $!", false), ("() !> 2 |> 3", true), ("1 ?> 2 |> ()", true),
 ];
 
+/// WRITTEN_FORMS plus conditional operands in every arrangement of arm kinds: condition true / false, `?>` / `!>`, the arm
+/// and the default each a number, unit, a true or false comparison, a negation or an equality (what the operand's last
+/// instruction is decides what the builder emits after it, and the arms rejoin behind it)
+pub fn written_forms() -> Vec<(String, bool)> {
+    let mut v: Vec<(String, bool)> = WRITTEN_FORMS.iter().map(|(s, t)| (s.to_string(), *t)).collect();
+    let arms: [(&str, bool); 6] = [("5", true), ("()", false), ("1 < 2", true), ("2 < 1", false), ("!! 1", false), ("1 == 1", true)];
+    for (cond, cond_true) in [("1", true), ("()", false)] {
+        for op in ["?>", "!>"] {
+            for (arm, arm_truth) in arms {
+                for (default, default_truth) in arms {
+                    let takes_arm = cond_true == (op == "?>");
+                    v.push((format!("{} {} {} |> {}", cond, op, arm, default), if takes_arm { arm_truth } else { default_truth }));
+                }
+            }
+        }
+    }
+    v
+}
+
 fn written_constructs() -> Vec<(&'static str, &'static str)> {
     CONSTRUCTS.iter().filter(|(_, k)| !matches!(*k, "one-or-self" | "self-or-one")).cloned().collect()
 }
@@ -168,7 +187,7 @@ impl Check for C10Check {
              Non-trivial = a truth-matrix or written-operand case, a chain shape that ran, or a trace program in which the reference skips at least one identifier; distinct = distinct (program, host / value).",
             truth_values().len(),
             CONSTRUCTS.len(),
-            WRITTEN_FORMS.len()
+            written_forms().len()
         )
     }
     fn assumptions(&self) -> Vec<String> {
@@ -178,7 +197,7 @@ impl Check for C10Check {
         vec![
             Phase::exhaustive("truth-matrix", (truth_values().len() * CONSTRUCTS.len()) as u64).with_chunk(16),
             Phase::exhaustive("evaluation-traces", LOGIC.count_up_to(tier.pick(6, 7))).with_chunk(1024),
-            Phase::exhaustive("written-operand-forms", (WRITTEN_FORMS.len() * written_constructs().len()) as u64).with_chunk(16),
+            Phase::exhaustive("written-operand-forms", (written_forms().len() * written_constructs().len()) as u64).with_chunk(16),
             Phase::exhaustive("chain-shapes", chain_shape_count()).with_chunk(64),
         ]
     }
@@ -230,7 +249,8 @@ impl Check for C10Check {
             (2, Input::Index(i)) => {
                 // the tested operand is written in the source: what the builder emits for `&&`, `?>` ... depends on the operand's form
                 let cs = written_constructs();
-                let (form, t) = WRITTEN_FORMS[(*i as usize) / cs.len()];
+                let forms = written_forms();
+                let (form, t) = (forms[(*i as usize) / cs.len()].0.as_str(), forms[(*i as usize) / cs.len()].1);
                 let (template, kind) = cs[(*i as usize) % cs.len()];
                 let src = template.split(' ').map(|w| if w == "$" { format!("( {} )", form) } else { w.to_string() }).collect::<Vec<_>>().join(" ");
                 let expected = match kind {
